@@ -417,7 +417,13 @@ func (srv *server) registerClient(connect *packets.Connect, client *client) (ses
 	srv.statsManager.clientConnected(client.opts.ClientID)
 
 	if oldSession != nil {
-		if !oldSession.IsExpired(now) && !connect.CleanStart {
+		expired := oldSession.IsExpired(now)
+		// The session expiry interval is measured from the end of the last network connection:
+		// offlineClients holds that deadline for every disconnected session.
+		if deadline, ok := srv.offlineClients[oldSession.ClientID]; ok {
+			expired = now.After(deadline)
+		}
+		if !expired && !connect.CleanStart {
 			sessionResume = true
 		}
 		// clean old session
